@@ -232,7 +232,7 @@ def _tracked_arm(det):
             b, cfg, tr, anchor = det.host, det.host_cfg, det.host_tr, det.host_call
     for kind, subj, arm, sbb in sp.guards(b, anchor):
         s = strip_wrappers(subj)
-        if kind == "discr" and arm in ("Some", "Ok") and _is_task_local_in(tr, s):
+        if kind == "discr" and arm in ("Some", "Ok", "Continue") and _is_task_local_in(tr, s):      # Continue: `lookup.ok()?`
             t = b.blocks[sbb].term
             for v, tgt in t["arms"] + [["x", t["otherwise"]]]:
                 if tgt == anchor or cfg.dominates(tgt, anchor):
@@ -252,7 +252,7 @@ def _is_task_local_in(tr, t):
         fn = tr.call_term(t[1]).get("fn") or {}
         if fn.get("name") == "try_with" and "LocalKey" in (fn.get("def") or ""):
             return True
-        if fn.get("name") in ("ok", "copied", "cloned"):
+        if fn.get("name") in ("ok", "copied", "cloned", "branch"):       # branch: the `?` applied to the lookup
             t = strip_wrappers(tr.norm(tr.call_args(t[1])[0]))
             guard += 1
             continue
@@ -268,7 +268,7 @@ def _helper_param_roles(det):
     args = [htr.norm(a) for a in htr.call_args(det.host_call)]
     for i, a in enumerate(args):
         t = strip_wrappers(a)
-        if t[0] == "field" and t[2][0] == "downcast" and t[2][1] in ("Some", "Ok") and _is_task_local_in(htr, strip_wrappers(t[2][2])):
+        if t[0] == "field" and t[2][0] == "downcast" and t[2][1] in ("Some", "Ok", "Continue") and _is_task_local_in(htr, strip_wrappers(t[2][2])):
             roles["caller"] = ("param", i + 1)
         elif t[0] == "call" and t[2] == "actor_ref::ActorRef::<T>::identity":
             who = strip_refs(htr.norm(htr.call_args(t[1])[0]))
@@ -300,7 +300,7 @@ def _ids(det):
         for st in blk.stmts:
             if st["k"] == "assign" and "use" in st["rv"]:
                 t = strip_wrappers(tr.norm(tr.operand(st["rv"]["use"])))
-                if t[0] == "field" and t[2][0] == "downcast" and t[2][1] in ("Some", "Ok") and _is_task_local(det, strip_wrappers(t[2][2])):
+                if t[0] == "field" and t[2][0] == "downcast" and t[2][1] in ("Some", "Ok", "Continue") and _is_task_local(det, strip_wrappers(t[2][2])):
                     caller = t
     id_idx = 0
     a = det.f.adts.get("Identity")
